@@ -66,7 +66,15 @@ pub fn stream(src: &dyn Source, columns: bool, final_source: bool) -> Result<Str
       .into_iter()
       .map(|r| match r {
         Raw::Chunk(c, m) => Ev::Chunk {
-          text: c.map(|r| r.to_string()),
+          // a chunk handed to a caller is a str: it must hold valid UTF-8 (a cut inside a multi-byte
+          // character by an unchecked slice shows up here even when every byte is still delivered)
+          text: c.map(|r| {
+            let b = r.to_bytes();
+            if std::str::from_utf8(&b).is_err() {
+              panic!("{} site=observer.streamed_chunk_is_valid_utf8: chunk bytes {:?}", rspack_sources::verif::UNSAFE_PRE_MARKER, &b[..b.len().min(12)]);
+            }
+            r.to_string()
+          }),
           gl: m.generated_line,
           gc: m.generated_column,
           orig: m
